@@ -54,6 +54,7 @@ Inductive op :=
 | OCopy                                               (* n = n.Copy() *)
 | OUpdate (name : bytes) (size : Z) (cid : bytes)     (* n = n.UpdateNodeLink(name, child) *)
 | ORedecode                                           (* n = DecodeProtobuf(n.RawData()) *)
+| OReblock                                            (* n = DecodeProtobufBlock(NewBlockWithCid(n.RawData(), n.Cid())) *)
 | RCid | RRaw | RLinks | RData | RTree | RDecode.     (* Cid(), RawData(), Links(), Data(), Tree(""), DecodeProtobuf(RawData()) *)
 
 Inductive ob :=
@@ -138,6 +139,17 @@ Definition step (n : node) (o : op) : node * ob :=
       | Some r => (of_decoded r raw, BOk)
       | None => (n', BErr)
       end
+  | OReblock =>
+      (* cached = the block's CID, builder = its prefix: the same hash function as the
+         builder that made the CID (with the defect switch on and a stale CID this is
+         the OLD builder; the model keeps the current one — only the classification of
+         a regression of the repaired finding C11-1 depends on it) *)
+      let n' := do_encode n in
+      let raw := odefault [] (n_enc n') in
+      match decode raw with
+      | Some r => (mkNode (snd r) false (fst r) (Some raw) (n_cached n') (n_builder n'), BOk)
+      | None => (n', BErr)
+      end
   | RCid => let n' := do_encode n in (n', BCid (odefault 0 (n_cached n')))
   | RRaw => let n' := do_encode n in (n', BRaw (odefault [] (n_enc n')))
   | RLinks => let n' := settle n in (n', BLinks (n_links n'))
@@ -187,6 +199,7 @@ Definition astep (a : anode) (o : op) : anode * ob :=
                 (match a_data a with Some ((_ :: _) as d) => Some d | _ => None end) (a_builder a), BOk)
       else (a, BErr)
   | ORedecode => (mkA (a_links a) (a_data a) 0, BOk)       (* a decoded node has the default builder *)
+  | OReblock => (a, BOk)                                   (* a node decoded from its own block is the same node *)
   | RCid => (a, BCid (H (a_builder a) (a_raw a)))
   | RRaw => (a, BRaw (a_raw a))
   | RLinks => (a, BLinks (sort_links (a_links a)))
